@@ -171,6 +171,11 @@ func (ex *Exec) unsupported(format string, a ...interface{}) {
 	where := ""
 	if ex.lastFrame != nil && ex.lastInstr != nil {
 		where = fmt.Sprintf(" [in %s at %s]", ex.lastFrame.fn, ex.posOf(ex.lastFrame, ex.lastInstr.Pos()))
+		if os.Getenv("GOSYM_DEBUG") != "" {
+			for f := ex.lastFrame; f != nil; f = f.caller {
+				fmt.Fprintf(os.Stderr, "   at %s\n", f.fn)
+			}
+		}
 	}
 	panic(abortPath{"unsupported", fmt.Sprintf(format, a...) + where})
 }
@@ -737,7 +742,7 @@ func (ex *Exec) callSSA(caller *Frame, callpos token.Pos, fn *ssa.Function, args
 		panic(abortPath{"budget", fmt.Sprintf("call depth above %d in %s", ex.cfg.MaxDepth, fn)})
 	}
 	fr := &Frame{ex: ex, th: th, caller: caller, fn: fn, depth: depth, callPos: callpos}
-	if in := ex.p.intrinsicFor(fn); in != nil {
+	if in := ex.p.intrinsicFor(fn); in != nil && !(ex.p.stubSet["real-ipld"] && isIpldCodecStub(in.name)) {
 		ex.res.Stubs[in.name]++
 		return in.fn(ex, fr, args)
 	}
@@ -935,4 +940,13 @@ func (ex *Exec) visitInitInstr(fr *Frame, instr ssa.Instruction) (k continuation
 		}
 	}()
 	return ex.visitInstr(fr, instr)
+}
+
+// isIpldCodecStub: the model-codec entry points that option "real-ipld" turns
+// off, so that go-ipld-prime's own LinkSystem.Load, dag-cbor codec and basicnode
+// builders are interpreted (feasible on concrete block bytes only).
+func isIpldCodecStub(name string) bool {
+	return strings.Contains(name, "go-ipld-prime/linking.LinkSystem).Load") ||
+		strings.Contains(name, "go-ipld-prime/codec/dagcbor.") ||
+		strings.Contains(name, "go-ipld-prime/codec/dagcbor.DecodeOptions)")
 }
